@@ -1,4 +1,5 @@
 import DateutilVerif.Properties.C08
+import DateutilVerif.Properties.TzGen   -- translator tie (wt-iso): obligations about the re-translated lookup functions
 #print axioms C08.rule_instant
 #print axioms C08.transitions_eq_posix_partial
 #print axioms C08.no_dst_part_is_fixed
@@ -13,5 +14,17 @@ import DateutilVerif.Properties.C08
 #print axioms C08.tzstr_posix_partial
 #print axioms C08.tzstr_posix_midyear_partial
 #print axioms C08.tzrange_eq_tzstr
+<<<<<<< HEAD
 #print axioms C08.tzstr_render_partial
 #print axioms C08.tzstr_string_posix_partial
+=======
+-- translator tie (wt-iso): Gen.* (Generated/TzKernels.lean) = model, and `_gen` twins
+#print axioms C08.gen_eq_model_naive_isdst
+#print axioms C08.gen_eq_model_isdst
+#print axioms C08.gen_eq_model_is_ambiguous
+#print axioms C08.gen_eq_model_utcoffset
+#print axioms C08.gen_eq_model_dst
+#print axioms C08.gen_eq_model_tzname
+#print axioms C08.gen_eq_model_fromutc
+#print axioms C08.gen_eq_model_dst_base_offset
+>>>>>>> wt-iso
